@@ -199,7 +199,10 @@ func getQualities(proofs []*engine.WorkSpaceProof, challenge pocutil.Hash, filte
 	for i, proof := range proofs {
 		quality, err := proof.Proof.VerifiedQuality(pocutil.PubKeyHash(proof.PublicKey), challenge, filter, slot, height)
 		if err != nil {
-			return nil, err
+			// a proof that does not verify can never win; it must not abort the
+			// round for the other spaces' proofs
+			qualities[i] = big.NewInt(0)
+			continue
 		}
 		qualities[i] = quality
 	}
